@@ -2,7 +2,7 @@
 """(Re)writes seeded/<id>/meta.json from the sub-agents' notes (scratch dirs, while they exist) and the results of tools_seeded_matrix.sh."""
 import glob, json, os, re, shutil, sys
 V = "/verif"; WT = "/tmp/wt"
-PORTED = {"C06-m2": "m2b.diff", "C10-m2": "m2b.diff", "C15-m1": "m1b.diff", "C08-m1": "m1b.diff", "C19-m1": "(ported in place)", "C06-m5": "(ported in place)"}
+PORTED = {"C13-m9": "(ported in place)", "C06-m2": "m2b.diff", "C10-m2": "m2b.diff", "C15-m1": "m1b.diff", "C08-m1": "m1b.diff", "C19-m1": "(ported in place)", "C06-m5": "(ported in place)"}
 OBSOLETE = {"C04-m2": "made harmless by fix 7c22f65 (reward functions became picklable by value): with the change applied the agent's own demonstration passes on the current tree"}
 STRENGTH = {
  "C05": "cross-process layer: streams are recomputed in child interpreters with other hash seeds", "C20": "shared-encoder histories (one encoder object, many calls) and zero-valued scalars added to the generator",
@@ -53,10 +53,21 @@ STRENGTH_ID = {
  "C10-m7": "dense actions with missing / empty features next to zeros", "C10-m8": "hash collisions are excused only when crc32(key) mod n_feats predicts them; actions that differ in the name of their one feature",
  "C15-m7": "learners whose predict understands batches while learn takes one interaction (and the other way round)", "C15-m8": "kwargs given as MappingProxyType, UserDict, OrderedDict or a Mapping class",
  "C19-m7": "two real worker processes started by CobaMultiprocessor ask the shared cacher for one key at the same moment", "C19-m8": "caught by the scheduled co-simulation once its patched sleep counts polls that never visit the shared lock (before that the run did not come back in time)",
+ "C11-m9": "caught as built", "C11-m10": "caught as built", "C20-m10": "caught as built", "C02-m10": "caught as built", "C19-m9": "caught as built (reported through the broken correspondence of the scheduled co-simulation, without a concrete input)",
+ "C12-m9": "caught as built", "C12-m10": "caught as built", "C04-m10": "caught as built (pickle in mid-read); the event model C04.ModelOps now covers it with a theorem", "C18-m9": "caught as built (model disagreement on where_fin with a duplicated level and a short surplus evaluation)",
+ "C07-m9": "caught as built", "C07-m10": "caught as built", "C03-m9": "caught as built", "C03-m10": "caught as built",
+ "C05-m9": "samplers law: PMFPredictor / PMFInfoPredictor / SafeLearner draws must be the choicew stream of a fresh CobaRandom(seed), also over action lists with equal members carrying different weights", "C05-m10": "samplers law with a SafeLearner wrapped around a SafeLearner and another sampler of the same seed used in between",
+ "C10-m9": "Batch oracle over interactions that list their keys in different orders", "C10-m10": "Environments shortcuts (dense/sparse/flatten/repr/batch) over several environments read one after the other, with a lookup table just big enough for each environment's own names",
+ "C20-m9": "integer features whose products are far beyond 2**53 (the expansion is exact)", "C15-m9": "bare PMFs computed in single precision or rounded to four decimals", "C15-m10": "stated probabilities (incl. exactly 0 and 0.0) followed through SequentialCB into the rows and into learn",
+ "C02-m9": "evaluator columns named like the key columns (learner_id, environment_id, evaluator_id)", "C19-m10": "OS-level write faults (RLIMIT_FSIZE) at many byte limits, for entries smaller and larger than the buffers",
+ "C14-m9": "regression labels a double cannot hold (big integers) and exact rationals, probed next to the label", "C14-m10": "dense ARFF sources with a nominal FEATURE and missing cells, read by name as well",
+ "C09-m9": "Cache pickled while a read is in progress (the copy must yield the whole sequence)", "C09-m10": "shortcuts law: Environments.take/reservoir/slice/riffle/where keep the filters' promises (strict reservoir on a short environment)",
+ "C04-m9": "held-params law: a source whose params dict the caller keeps, read through several SupervisedSimulations", "C13-m9": "EncodeCatRows oracle (eager replacement, source rows untouched incl. shared nested lists, second pass equal); found and fixed two defects of EncodeCatRows on the way",
+ "C13-m10": "sparse ARFF lines with quoted values and several blanks / tabs between index and value", "C18-m10": "Results whose three parameter tables share a column name ('seed', as real environments, learners and evaluators report): as l/p/x it means the environments' column",
  "C20-m3": "caught as built (interleaved terms such as 'xax')", "C20-m4": "caught as built (number-first mixed sequences)",
 }
 def heading(pid, m):
-    sub = "-scratch4" if m in ("m7", "m8") else "-scratch3" if m in ("m5", "m6") else "-scratch2" if m in ("m3", "m4") else "-scratch"
+    sub = "-scratch5" if m in ("m9", "m10") else "-scratch4" if m in ("m7", "m8") else "-scratch3" if m in ("m5", "m6") else "-scratch2" if m in ("m3", "m4") else "-scratch"
     p = os.path.join(WT, pid + sub, "notes.md")
     if not os.path.exists(p): return None
     txt = open(p).read()
